@@ -472,3 +472,69 @@ func dedup(xs []string) []string {
 	}
 	return out
 }
+
+// CARRIER (SEC-8, C20): the value of an environment secret travels in the raw model under a private key inside
+// `#extensions`; the decode hook moves it into Content and removes it. Whether it removes it depends on the
+// carrier alone (is it there, is it a string): a hook that also wants the secret to (still) declare `environment`
+// leaves the carrier in the extensions of a secret whose `environment` a later file reset, and the YAML rendering
+// prints extensions inline. In the hook, no condition on the way to delete(ext, carrier) looks up another key.
+func (c *Ctx) CARRIER(rule string) []report.Obligation {
+	f := c.P.Func("loader.secretConfigDecoderHook")
+	if f == nil {
+		return []report.Obligation{anchorViolation(rule, "loader.secretConfigDecoderHook")}
+	}
+	xvalue, extKey := "", ""
+	if pk := c.P.PkgByRel["types"]; pk != nil {
+		if o, isC := pk.Types.Scope().Lookup("SecretConfigXValue").(*types.Const); isC {
+			xvalue = strings.Trim(o.Val().ExactString(), `"`)
+		}
+	}
+	if pk := c.P.PkgByRel["consts"]; pk != nil {
+		if o, isC := pk.Types.Scope().Lookup("Extensions").(*types.Const); isC {
+			extKey = strings.Trim(o.Val().ExactString(), `"`)
+		}
+	}
+	var out []report.Obligation
+	n := 0
+	for _, cs := range callSites(f, func(com *ssa.CallCommon) bool {
+		bi, ok := com.Value.(*ssa.Builtin)
+		return ok && bi.Name() == "delete"
+	}) {
+		if k, _ := prog.ConstString(cs.Common().Args[1]); k != xvalue {
+			continue
+		}
+		n++
+		offending := ""
+		for _, d := range prog.Info(f).TransitiveControlDeps(cs.Block()) {
+			iff, ok := d.Branch.Instrs[len(d.Branch.Instrs)-1].(*ssa.If)
+			if !ok {
+				continue
+			}
+			seen := map[ssa.Value]bool{}
+			var walk func(v ssa.Value, depth int)
+			walk = func(v ssa.Value, depth int) {
+				if v == nil || depth == 0 || seen[v] {
+					return
+				}
+				seen[v] = true
+				if lk, isL := v.(*ssa.Lookup); isL {
+					if k, isC := prog.ConstString(lk.Index); isC && k != xvalue && k != extKey {
+						offending = k
+					}
+				}
+				if in, isI := v.(ssa.Instruction); isI {
+					for _, op := range in.Operands(nil) {
+						walk(*op, depth-1)
+					}
+				}
+			}
+			walk(iff.Cond, 6)
+		}
+		out = append(out, verdict(offending == "", rule, "secretConfigDecoderHook :: the carrier is removed whenever it is there", c.P.InstrPos(cs),
+			"reaching delete(ext, carrier) depends on the carrier and the extensions mapping only", "whether the carrier of the secret value is removed from the extensions also depends on the key `"+offending+"`: when that test fails the value stays in SecretConfig.Extensions, which the YAML rendering prints inline"))
+	}
+	if n == 0 {
+		out = append(out, bad(rule, "secretConfigDecoderHook :: the carrier is removed whenever it is there", c.P.Pos(f.Pos()), "no delete of the carrier key found in the hook"))
+	}
+	return out
+}
